@@ -127,7 +127,9 @@ def r17_scoping(ctx):
     initial = ctx.f.table(META, '_charset')
     o, mbytes = ctx.p.lookup_method(ctx.p.cls(META, 'MetaMessage'), 'bytes')
     n = 0
-    for charset in ('utf-16', 'shift_jis'):
+    # (the default charset is a charset like any other: a file that says latin1 is written and read as latin1, not as a
+    # "compatible" superset chosen on its behalf)
+    for charset in ('utf-16', 'shift_jis', 'latin1', 'cp1252'):
         for label, (stream, expect) in load_streams().items():
             n += 1
             holder = {}
@@ -168,7 +170,7 @@ def r17_scoping(ctx):
                         return mf
                     outs = ai.explore(thunk_p)
                     _judge(ctx, ai, outs, f'MidiFile.save({how}=..., {label}, charset={charset})', psave, mc, charset, initial, expect, mbytes)
-    ctx.floor('R17.1', n, 28)
+    ctx.floor('R17.1', n, 48)
     # nested overrides unwind level by level, also on an exception in the innermost block
     for q in ai.inlined:
         ctx.functions.add(q)
